@@ -81,9 +81,32 @@ fn author(b: u8) -> AuthorId {
 }
 
 /// C13: `insert` keeps the maximum per author; `has_news_for` counts exactly the authors with a
+/// strictly newer timestamp or unknown to the other side.  One author per side (the two ids are
+/// symbolic in one byte and may coincide), two inserts for ours, u64 timestamps.  (B-tree maps
+/// with 32-byte keys are expensive for CBMC, DESIGN.md P12: the two-author variant is thorough-only.)
+pub fn heads_news_1<S: Src>(s: &mut S) {
+    let (a1, b1) = (s.u8(), s.u8());
+    let (ta, ta2, tb) = (s.u64(), s.u64(), s.u64());
+    let mut ours = AuthorHeads::default();
+    ours.insert(author(a1), ta);
+    ours.insert(author(a1), ta2);
+    let mut theirs = AuthorHeads::default();
+    theirs.insert(author(b1), tb);
+    let our_head = ta.max(ta2);
+    ck!(s, ours.get(&author(a1)) == Some(our_head) && ours.len() == 1, "insert keeps the greatest timestamp per author");
+    let want = if b1 == a1 { (tb > our_head) as u64 } else { 1 };
+    let got = theirs.has_news_for(&ours).map(|n| n.get()).unwrap_or(0);
+    cv!(s, b1 == a1 && tb == our_head, "heads_news_1: the report names exactly the head we hold");
+    cv!(s, b1 != a1, "heads_news_1: unknown author");
+    ck!(s, got == want, "a head report is news exactly for the authors with a strictly newer timestamp or unknown to us");
+    std::mem::forget(ours);
+    std::mem::forget(theirs);
+}
+
+/// C13: `insert` keeps the maximum per author; `has_news_for` counts exactly the authors with a
 /// strictly newer timestamp or unknown to the other side.  Two authors per side (ids symbolic in
 /// one byte, may coincide), u64 timestamps.
-pub fn heads_news<S: Src>(s: &mut S) {
+pub fn heads_news_2<S: Src>(s: &mut S) {
     let (a1, a2, b1, b2) = (s.u8(), s.u8(), s.u8(), s.u8());
     let (ta1, ta1b, ta2, tb1, tb2) = (s.u64(), s.u64(), s.u64(), s.u64(), s.u64());
     let mut ours = AuthorHeads::default();
